@@ -1,2 +1,15 @@
 import Proofs.C07
-#print axioms C07.placeholder
+#print axioms C07.quoted_word_scan
+#print axioms C07.quote_expressible
+#print axioms C07.quote_expressible_partial
+#print axioms C07.bare_word_ok
+#print axioms C07.parse_total
+#print axioms C07.error_offset_in_range
+#print axioms C07.error_is_final
+#print axioms C07.unterminated_quote_rejected
+#print axioms C07.unterminated_regexp_rejected
+#print axioms C07.missing_colon_rejected
+#print axioms C07.empty_fixed_list_rejected
+#print axioms C07.unknown_order_rejected
+#print axioms C07.unit_in_projection_rejected
+#print axioms C07.config_in_filter_rejected
